@@ -22,6 +22,7 @@ import (
 	"go/ast"
 	"go/parser"
 	"go/token"
+	"go/types"
 	"io/ioutil"
 	"os"
 	"path/filepath"
@@ -923,6 +924,63 @@ func extractClockReads(repo string, o *out) {
 		"def clockReads : List (String × String × String) := [\n"+strings.Join(rows, ",\n")+"]")
 }
 
+// ---------------------------------------------------------------------------------------------------
+// 4. type switches of the glue code: which Go types of a value each function knows how to handle
+
+// typeSwitches lists, for every type switch in the named function (source order), the types named by its case clauses
+// (a `default` clause is written "default").
+func typeSwitches(f *file, key string) [][]string {
+	fd := f.funcs[key]
+	if fd == nil {
+		die("function %s not found", key)
+	}
+	out := [][]string{}
+	ast.Inspect(fd.Body, func(n ast.Node) bool {
+		ts, ok := n.(*ast.TypeSwitchStmt)
+		if !ok {
+			return true
+		}
+		cases := []string{}
+		for _, st := range ts.Body.List {
+			cc, ok := st.(*ast.CaseClause)
+			if !ok {
+				continue
+			}
+			if cc.List == nil {
+				cases = append(cases, "default")
+			}
+			for _, e := range cc.List {
+				cases = append(cases, types.ExprString(e))
+			}
+		}
+		out = append(out, cases)
+		return true
+	})
+	return out
+}
+
+func extractTypeSwitches(repo string, o *out) {
+	for _, it := range [][3]string{
+		{"state_indexed.go", "extractTermsAux", "termTypes"},
+		{"match.go", "cast", "castTypes"},
+		{"state.go", "setExpires", "expiryTypes"},
+	} {
+		f := load(filepath.Join(repo, "core", it[0]))
+		sw := typeSwitches(f, it[1])
+		rows := []string{}
+		for _, cases := range sw {
+			q := []string{}
+			for _, c := range cases {
+				q = append(q, leanString(c))
+			}
+			rows = append(rows, "  ["+strings.Join(q, ", ")+"]")
+		}
+		fmt.Fprintf(&o.log, "type switches of %s (%s): %v\n", it[1], it[0], sw)
+		o.def(fmt.Sprintf("the Go types named by the case clauses of each type switch in `%s` (core/%s), in source order", it[1], it[0]),
+			fmt.Sprintf("def %s : List (List String) := [\n%s]", it[2], strings.Join(rows, ",\n")))
+	}
+}
+
 func main() {
 	repo := flag.String("repo", "/repo", "rulio source tree")
 	outPath := flag.String("out", "", "Lean file to (re)write; empty = print only")
@@ -1001,6 +1059,7 @@ func main() {
 	extractIdProperty(st, o)
 	extractGenPropId(st, o)
 	extractClockReads(*repo, o)
+	extractTypeSwitches(*repo, o)
 
 	fmt.Fprintf(&o.lean, "end Gen\n")
 	fmt.Fprintf(&o.log, "state-touching methods: %s\n", strings.Join(sm, " "))
